@@ -24,7 +24,7 @@ THEOREMS = ['evaluate_fst', 'passed_iff_no_errors', 'sizeBad_iff', 'listBad_iff'
             'evaluate_iff_satisfied', 'subset_monotone', 'larger_keys_monotone', 'strict_marker_mandatory', 'errors_wellformed']
 # functions of the code whose Lean definitions are regenerated from the source on every run (harness/translate_logic.py); `GenLogic.<name>_eq_model`
 # (lean/SshAudit/Props/GenLogic*.lean) ties each to the hand-written model function the theorems above are about
-GEN_LOGIC = ['normalize_error_field']
+GEN_LOGIC = ['normalize_error_field', 'policy_check_kex', 'policy_check_ciphers', 'policy_check_macs', 'policy_check_hostkeys', 'policy_check_compression']
 TECHNIQUE = 'Lean 4 theorems (refinement of the evaluator to a declarative spec, invariant over the error bookkeeping) + exhaustive small-universe correspondence with Policy.evaluate'
 LEVEL_TEXT = ('The evaluator is transcribed branch by branch into Lean; evaluate ↔ Satisfied (a declarative conjunction from the README), passed ↔ empty error list, '
               'and both monotonicity claims are proved for arbitrary policies and peers. The transcription is compared with the real Policy.evaluate (verdict and complete '
